@@ -503,17 +503,17 @@ func ruleC06DistinctLoop(c *Ctx) {
 		// the fingerprint depends on the whole row
 		wholeRow := func(t *Term) bool {
 			return t.Contains(func(x *Term) bool {
-				a, ok := callArgs(x, "fmt.Sprintf")
-				return ok && len(a) == 2 && a[1].Op == "varargs" && len(a[1].Args) == 1 && elemOfLoop(a[1].Args[0], lp) && a[1].Args[0].Op != "lookup" && a[1].Args[0].Op != "field"
+				_, va, ok := fmtRendering(x)
+				return ok && va.Op == "varargs" && len(va.Args) == 1 && elemOfLoop(va.Args[0], lp) && va.Args[0].Op != "lookup" && va.Args[0].Op != "field"
 			})
 		}
 		// the rendering that is fingerprinted must be injective on JSON-like rows: the Go-syntax verb quotes strings,
 		// names nil and brackets composites; %v / %s / %+v render `a:"1 b:2"` and `a:1 b:2` alike
 		checkFmt := func(t *Term) {
 			t.Walk(func(x *Term) bool {
-				if a, ok := callArgs(x, "fmt.Sprintf"); ok && len(a) == 2 && a[0].Op == "const" {
-					if a[0].Name != `"%#v"` {
-						why = append(why, "the row is fingerprinted through the format "+a[0].Name+", which is not injective (unquoted strings, <nil>, blank separators): rows that differ can be dropped as duplicates")
+				if fs, _, ok := fmtRendering(x); ok && fs.Op == "const" {
+					if fs.Name != `"%#v"` {
+						why = append(why, "the row is fingerprinted through the format "+fs.Name+", which is not injective (unquoted strings, <nil>, blank separators): rows that differ can be dropped as duplicates")
 					}
 				}
 				return true
@@ -763,4 +763,16 @@ func ruleC06BranchWith(c *Ctx) {
 		}
 	}
 	c.Check(len(why) == 0, "c06.branch-with", c.P.funcKey(f), c.P.Pos(f.Pos()), fmt.Sprintf("%d SetWith sites install MergeWith(union's, own)", n), strings.Join(uniq(why), "; "))
+}
+
+// fmtRendering: x renders values through a format: fmt.Sprintf(format, args...) or fmt.Appendf(dst, format, args...)
+// (the same text as bytes). Returns the format and the variadic argument list.
+func fmtRendering(x *Term) (format, args *Term, ok bool) {
+	if a, isS := callArgs(x, "fmt.Sprintf"); isS && len(a) == 2 {
+		return a[0], a[1], true
+	}
+	if a, isA := callArgs(x, "fmt.Appendf"); isA && len(a) == 3 {
+		return a[1], a[2], true
+	}
+	return nil, nil, false
 }
